@@ -387,8 +387,17 @@ def base_dec(A, alg, need):
     elif which == "kry":
         import cola.linalg as cl
         t = cl.trace(cl.log(A, alg["obj"]), alg["trace_obj"])
-        dec.update(kt=complex(t), dense=D, uneven=uneven_krylov(D))
+        dec.update(kt=complex(t), dense=D, uneven=uneven_krylov(D), branch_cut=on_branch_cut(D))
     return dec
+
+
+def on_branch_cut(D):
+    """a complex-dtype node with an eigenvalue on (numerically: within 1e-4 relative of) the negative real axis: the principal
+    logarithm is discontinuous there and the side is decided by rounding"""
+    if not np.iscomplexobj(D):
+        return False
+    ev = np.linalg.eigvals(D.astype(np.complex128))
+    return bool(np.any((ev.real < 0) & (np.abs(ev.imag) <= 1e-4 * np.abs(ev))))
 
 
 def uneven_krylov(D):
